@@ -266,9 +266,9 @@ func init() {
 			}
 			return c12Plan(form, target, val, codec)
 		},
-		Directed: func(tier string) []*Plan { return c12All() },
-		Oracle:   c12Oracle,
-		NoShrink: true,
+		Directed:   func(tier string) []*Plan { return c12All() },
+		Oracle:     c12Oracle,
+		NoShrink:   true,
 		Components: stdComponents,
 		Assumptions: []string{"grammars: gRPC = 1-8 ASCII digits + one of HMSmun; Connect = 1-10 ASCII digits; REST = non-negative decimal seconds",
 			"a leading '+' and surrounding blanks are not generated (Go's integer parser and HTTP field parsing accept them); values beyond 8 hours may be clamped or dropped"},
